@@ -91,7 +91,7 @@ class Recorder:
 
 
 # ------------------------------------------------------------------ program generation
-VALUE_KINDS = ["none", "ellipsis", "text", "num", "tag", "taglist", "html", "dep", "tf", "obj", "tfobj", "list", "bad", "reprraise", "emptystr"]
+VALUE_KINDS = ["none", "ellipsis", "text", "num", "tag", "taglist", "html", "dep", "meta", "tf", "obj", "tfobj", "list", "badlist", "bad", "reprraise", "emptystr"]
 
 
 def rand_value(rng):
@@ -120,6 +120,11 @@ def rand_value(rng):
         return {"k": "list", "t": rng.choice(["list", "tuple"]), "c": [{"k": "text", "s": "x"}, {"k": "none"}, {"k": "num", "v": 1}]}
     if k == "bad":
         return {"k": "bad", "t": rng.choice(["object", "dict", "bytes", "set"])}
+    if k == "badlist":
+        # valid items followed by an invalid one: nothing may be appended
+        return {"k": "list", "t": rng.choice(["list", "tuple"]), "c": [{"k": "text", "s": "v1"}, gen.TAG("i", ws=False), {"k": "bad", "t": "object"}, {"k": "text", "s": "v2"}]}
+    if k == "meta":
+        return {"k": "meta"}
     return {"k": k}
 
 
@@ -137,8 +142,12 @@ def rand_stmts(rng, depth, budget):
             out.append({"s": "block", "tag": rng.choice(["div", "span", "ul", "x-t"]), "body": rand_stmts(rng, depth - 1, budget)})
         elif r < 0.8:
             out.append({"s": "raise"})
-        elif r < 0.88:
+        elif r < 0.86:
             out.append({"s": "reenter", "which": rng.randint(0, 3)})
+        elif r < 0.9:
+            # user code replaces the hook inside the block and leaves (normally or by an exception) without restoring it
+            out.append({"s": "sethook", "then_raise": rng.random() < 0.6})
+            break
         elif depth > 0:
             out.append({"s": "try", "body": rand_stmts(rng, depth - 1, budget)})
         else:
@@ -188,6 +197,7 @@ class Run:
         self.top_expected = []    # what the recorder must have received, in order
         self.recorder = recorder
         self.problems = []
+        self.hijacked_by = None   # the block whose body replaced sys.displayhook; the rest of that body is skipped
 
     def sink(self):
         return self.model[id(self.active[-1])] if self.active else self.top_expected
@@ -204,15 +214,17 @@ class Run:
         expect_exc = None
         add = []
         if self.active:
-            if v is None or v is ...:
+            # the expectation is derived from the KIND of value displayed (the recipe), not from the live object
+            k = vr["k"]
+            if k in ("none", "ellipsis"):
                 pass
-            elif vr["k"] == "reprraise":
+            elif k == "reprraise":
                 expect_exc = ValueError
-            elif isinstance(v, (ht.Tag, ht.TagList)) or callable(getattr(v, "tagify", None)):
-                add = F.flatten([v])
-            elif callable(getattr(v, "_repr_html_", None)):
-                add = [("HTML", v._repr_html_())]
-            else:
+            elif k in ("obj", "html"):
+                add = [("HTML", vr["s"])]  # kept as HTML (by value: an HTML() is itself self-rendering and is re-wrapped)
+            elif k == "bad":
+                expect_exc = TypeError
+            else:  # text, num, tag, list/tuple/taglist, html, dep, meta, tf, tfobj: normal child rules
                 try:
                     add = F.flatten([v])
                 except F.Unsupported:
@@ -249,6 +261,8 @@ class Run:
                     self.stmts(st["body"])
                 finally:
                     self.active.pop()
+                    if self.hijacked_by is tag:
+                        self.hijacked_by = None
                     # on exit (normal or exceptional) the tag is handed to the enclosing hook
                     self.sink().append(tag)
         finally:
@@ -271,6 +285,8 @@ class Run:
 
     def stmts(self, body):
         for st in body:
+            if self.hijacked_by is not None:
+                return
             self.tick()
             k = st["s"]
             if k == "display":
@@ -281,6 +297,14 @@ class Run:
                 raise Boom("program raise")
             elif k == "reenter":
                 self.reenter(st)
+            elif k == "sethook":
+                if self.active:
+                    sys.displayhook = Recorder()  # a foreign hook; the block's exit must still restore the entry hook
+                    self.ctx.count("foreign_hooks_installed")
+                    self.hijacked_by = self.active[-1]
+                    if st["then_raise"]:
+                        raise Boom("after replacing the hook")
+                    return
             elif k == "try":
                 try:
                     self.stmts(st["body"])
@@ -355,7 +379,56 @@ def _delivery_key(got, want):
     return "delivery-missing"
 
 
+def run_default_hook_case(ctx, n_blocks, rng):
+    """Top-level blocks under the interpreter's own sys.__displayhook__: each tag must be handed to it (echoed, builtins._)."""
+    import builtins
+    import contextlib
+    import io
+
+    real = sys.displayhook
+    buf = io.StringIO()
+    tags = []
+    had = hasattr(builtins, "_")
+    old_ = getattr(builtins, "_", None)
+    ctx.count("monitor.default_hook_programs")
+    try:
+        sys.displayhook = sys.__displayhook__
+        with contextlib.redirect_stdout(buf):
+            for i in range(n_blocks):
+                t = ht.Tag(rng.choice(["div", "span", "p"]), id="top%d" % i)
+                tags.append(t)
+                with t:
+                    sys.displayhook("inner%d" % i)
+                    if rng.random() < 0.5:
+                        inner = ht.Tag("b")
+                        with inner:
+                            sys.displayhook("deep")
+                if getattr(builtins, "_", None) is not t:
+                    ctx.violation("delivery-missing", "after a top-level block under sys.__displayhook__ builtins._ is not the tag", {"blocks": n_blocks, "at": i})
+                    return False
+                if sys.displayhook is not sys.__displayhook__:
+                    ctx.violation("hook-not-restored", "sys.__displayhook__ not restored after a top-level block", {"blocks": n_blocks})
+                    return False
+    finally:
+        sys.displayhook = real
+        if had:
+            builtins._ = old_
+        elif hasattr(builtins, "_"):
+            del builtins._
+    out = buf.getvalue()
+    pos = 0
+    for t in tags:
+        j = out.find(repr(t), pos)
+        if j < 0:
+            ctx.violation("delivery-missing", "a top-level tag was not echoed by sys.__displayhook__", {"blocks": n_blocks, "echo": out[:400]})
+            return False
+        pos = j + 1
+    return True
+
+
 def replay(ctx, w):
+    if "program" not in w:
+        return
     run_case(ctx, w["program"], w["inject_at"], w.get("recorder_raises_on"))
 
 
@@ -392,6 +465,8 @@ def run(ctx):
             ctx.guard(run_case, ctx, prog, k, rr, witness={"program": prog, "inject_at": k, "recorder_raises_on": rr})
             ctx.case((prog, k, rr), nontrivial=depth_of(prog) >= 2 and N >= 3)
         ctx.state("skeleton_shapes", (min(depth_of(prog), 4), min(N, 10)))
+    for _ in range(ctx.budget(40, 4000)):
+        ctx.guard(run_default_hook_case, ctx, rng.randint(1, 3), rng, witness={"what": "default hook"})
     ctx.count("skeletons", skel)
     ctx.exhaustive["every_statement_position_of_every_generated_skeleton"] = True
     ctx.sample({"program": fixed[0], "inject_at": 2})
